@@ -97,5 +97,57 @@ TEXTS = {
                  "fill_from_lockfile seeding, used_yanked_packages bookkeeping) - these need the builder model."),
         "technique": "Coq proof (loop invariant of the fold-max, refinement to a declarative best-of-tier spec, uniqueness) + bounded-exhaustive and sampled differential testing of the extracted model against the public API + proved decision procedure on real answers",
     },
+    "C01": {
+        "text": ("An executable Coq model of the builder (Model/Builder.v, stage B1: URL/node/redirect/external/asset/"
+                 "deferred/dynamic/types/configured imports, acceptance logic of parse_module_source_and_info) is "
+                 "compared on every run with the REAL builder on thousands of generated worlds: full structural "
+                 "equality of entries, structured errors with referrers, redirects, dependency lists, loader calls. "
+                 "Theorems so far: at most one entry per specifier, no pending entry after a build, recorded "
+                 "dependencies are the parser's declaration adjusted only by graph kind. The two-sided closure theorem "
+                 "is not yet proved: PARTIAL; closure is decided per case through the model equality and through "
+                 "C15/C02 on real graphs."),
+        "design_ref": "DESIGN.md section 5 C01",
+        "note": ("Trusted: Coq kernel; extraction; the harness's world abstraction (each module's declaration comes "
+                 "from the real parse_module; media types from the real header resolution; interning). Not modelled in "
+                 "this stage: JSR/npm, source-phase imports, source maps, locker, non-utf-8 sources."),
+        "technique": "executable Coq model of the builder state machine + invariant proofs + differential testing against the real builder",
+    },
+    "C03": {
+        "text": ("Coq theorem over the builder model: for every world (every assignment of faults) a completed build "
+                 "leaves no entry pending, by an invariant preserved by every step of the build loop; every loader "
+                 "failure becomes an error entry under the error's own specifier. Fault enumeration on the real code: "
+                 "all 6561 response assignments of a 4-specifier base world (3 worlds in the thorough tier) plus "
+                 "sampled worlds, each checked for panics, INTERNAL ERROR, pending entries, error placement/referrers, "
+                 "fault locality against the fault-free build, and equality with the model. The machinery found a "
+                 "genuine pending-entry defect (self-redirect), repaired by a fix: commit. Termination is not proved "
+                 "(fuel); registry/npm/checksum faults are not yet enumerated: PARTIAL."),
+        "design_ref": "DESIGN.md section 5 C03, section 6",
+        "note": "Trusted: as C01. catch_unwind around the real build; a harness panic is reported as a violation too.",
+        "technique": "Coq invariant proof over the builder model + exhaustive fault enumeration on the real code",
+    },
+    "C04": {
+        "text": ("Coq theorems over a scheduler refinement of the builder model (Model/Sched.v): whatever order "
+                 "outstanding loads complete in and whenever the build is polled, a build that completes ends in the "
+                 "state of the sequential loop (C04_schedule_independent, C04_scheduled_equals_sequential). On the "
+                 "real code each world is built under random completion schedules through gated futures and "
+                 "repeatedly in one process; all observations (graph JSON + errors with referrer ranges) must be "
+                 "identical and equal the model's graph. The machinery found hash-order dependence of error referrers "
+                 "(F-C04a), repaired by a fix: commit. Partial: FuturesUnordered content loads of JSR packages are "
+                 "not modelled."),
+        "design_ref": "DESIGN.md section 5 C04, section 6",
+        "note": "Trusted: as C01; the loader is a function of its arguments; inline executor instead of deno_unsync spawn.",
+        "technique": "Coq simulation proof (scheduled run tracks the sequential loop) + schedule exploration with gated futures on the real code",
+    },
+    "C19": {
+        "text": ("The builder model covers Builder::build on a non-empty graph and Builder::reload; the real code and "
+                 "the model execute the same histories and must agree structurally. Proved: rebuilding with known "
+                 "roots/imports is the identity and issues no load; no pending entries after any further build. The "
+                 "convergence claims are refuted in general (C19_root_context_refuted; known findings F-C19a/b) and "
+                 "are decided per history on the real code by an extracted judge against the alternative real build. "
+                 "Partial: no convergence theorem over the model yet."),
+        "design_ref": "DESIGN.md section 5 C19, section 6",
+        "note": "Trusted: as C01; error referrers are not compared between alternative histories.",
+        "technique": "executable Coq model of build/reload histories + differential testing + relational judge on real histories",
+    },
 }
 NOT_YET = {}
